@@ -82,6 +82,36 @@ SMOKE_TESTS = ("Test(C01Rapid|C01Corpus|C01Scope|C02Rapid|C02Scope|C03Rapid|C03S
                "C16HdrRapid|C16MthRapid|C16ParseRapid|C16Enum|C17Rapid|C17ViaRapid|C18Rapid|C18Enum|C19Rapid|C20Rapid|C20Enum|Replay)$")
 
 
+FILE_PROPS = {
+    "ip_prefix.go": ["C20", "C04"], "hex2i.go": ["C04", "C20"],
+    "sipuri.go": ["C14", "C18", "C15", "C10", "C11", "C12"],
+    "parse_from.go": ["C09", "C02", "C05", "C10", "C12"],
+    "parse_headers.go": ["C07", "C01", "C02", "C12", "C13", "C16", "C05", "C06"],
+    "parse_params.go": ["C17", "C02", "C03", "C09"],
+    "parse_uri_params.go": ["C17", "C13", "C15", "C12", "C02"],
+    "parse_uri_hdrs.go": ["C17", "C13", "C15", "C12", "C02"],
+    "parse_fline.go": ["C08", "C02", "C03", "C01"],
+    "parse_utils.go": ["C02", "C03", "C07", "C01", "C09"],
+    "parse_msg.go": ["C06", "C01", "C12", "C11", "C05"],
+    "parse_contact.go": ["C09", "C13", "C12", "C02", "C05"],
+    "parse_pai.go": ["C09", "C02", "C12", "C13"],
+    "parse_cseq.go": ["C10", "C02", "C05"], "parse_clen.go": ["C10", "C02", "C06"],
+    "parse_callid.go": ["C02", "C05", "C01"], "parse_method.go": ["C16", "C08"],
+    "parse_types.go": ["C04", "C01", "C11"], "msg_sig.go": ["C19", "C20", "C17", "C04"],
+    "parse_expires.go": ["C10", "C02"],
+}
+
+
+def tests_for(f):
+    """in --full mode only the checks of the properties anchored in the mutated file are run (at default depth)"""
+    props = FILE_PROPS.get(f)
+    if not props:
+        return SMOKE_TESTS
+    names = SMOKE_TESTS[len("Test("):-len(")$")].split("|")
+    keep = [n for n in names if n == "Replay" or n[:3] in props]
+    return "Test(" + "|".join(keep) + ")$"
+
+
 def run(cmd, cwd, env=None, timeout=600):
     try:
         p = subprocess.run(cmd, cwd=cwd, env=env or ENV, stdout=subprocess.PIPE, stderr=subprocess.STDOUT, text=True, timeout=timeout)
@@ -135,7 +165,7 @@ def one(site, idx, checks):
         env.update({"VERIF_REPLAY_DIR": os.path.join(wd, "rp"), "VERIF_STATS": os.path.join(wd, "st.json"),
                     "VERIF_REPLAY_FILES": os.path.join(VERIF, "replays"), "GOMAXPROCS": "3", "VERIF_WORKERS": "3"})
         t0 = time.time()
-        rc, out = run([binp, "-test.run", SMOKE_TESTS, "-rapid.checks=%d" % checks, "-rapid.seed=7", "-rapid.nofailfile",
+        rc, out = run([binp, "-test.run", tests_for(f) if USE_FULL else SMOKE_TESTS, "-rapid.checks=%d" % checks, "-rapid.seed=7", "-rapid.nofailfile",
                        "-rapid.shrinktime=1s", "-test.timeout", "900s"], os.path.join(VERIF, "harness", "props"), env, timeout=1000)
         res["smoke_s"] = round(time.time() - t0, 1)
         killers = sorted(set(re.findall(r"VIOLATION-FOUND property=(\S+) check=(\S+)", out)))
